@@ -485,7 +485,7 @@ func execC12Seq(in sx.V) sx.V {
 		if acts[0].Head() == "alive" {
 			_, fails, bad = runC12Alive(acts[0].List[1].I())
 		} else if acts[0].Head() == "blackhole" {
-			_, fails, bad = runC12BlackHole(acts[0].List[1].I(), acts[0].List[2].I())
+			_, fails, bad = runC12BlackHoleAuth(acts[0].List[1].I(), acts[0].List[2].I(), len(acts[0].List) > 3 && acts[0].List[3].I() == 1)
 		} else if acts[0].Head() == "pinger" {
 			_, fails, bad = runC12Pinger(acts[0].List[1].I() == 1)
 		} else {
